@@ -1164,7 +1164,9 @@ class Serializable(object):
                 if attribute in self._child_xml_ns_key:
                     xml_ns_key = self._child_xml_ns_key[attribute]
                 else:
-                    xml_ns_key = getattr(self, '_xml_ns_key', ns_key)
+                    # a structure written by its parent uses the namespace key the parent hands down; the key recorded when
+                    # the structure was created only serves when it is serialised on its own
+                    xml_ns_key = ns_key if parent is not None else getattr(self, '_xml_ns_key', ns_key)
                     if xml_ns_key == 'default':
                         xml_ns_key = None
 
